@@ -1,11 +1,13 @@
 import SygmaModel.Drv.C12
 import SygmaModel.Drv.C14
+import SygmaModel.Drv.C20
 namespace Sygma.Drv
 
 def dispatch (prop op : String) (args : List String) (impl : String) : Option Verdict :=
   match prop with
   | "C12" => C12.handle op args impl
   | "C14" => C14.handle op args impl
+  | "C20" => C20.handle op args impl
   | _ => none
 
 end Sygma.Drv
